@@ -566,3 +566,6 @@ def run(ck):
     ck.run_rule("C02.R4", "length() siblings agree with the values they describe", 4, rule_R4)
     ck.run_rule("G1", "deferred thunks capture by value", 20, thunks.rule_G1)
     ck.run_rule("C02.R6", "address continuation across included and linked files", 4, rule_R6)
+    from ..rules import treeimm
+    ck.run_rule("G4.re", "the value of '.' inside an expression is the current statement's, also when the same tree node is compiled again", 15, treeimm.rule_reresolve)
+    ck.run_rule("G4.def", "the image and its length are values: no in-place growth, no cached length", 30, treeimm.rule_deferred_immutable)
